@@ -768,7 +768,11 @@ func c17FixedOf(b []byte) (*types.Kustomization, error) {
 
 // c17AbsorbedShape: the new JSON differs from the old only in string leaves that grew by appended
 // comment-looking lines (an indented comment re-emitted after a block scalar).
+// c17LastAbsorbed: the lines the last successful c17AbsorbedShape call found appended
+var c17LastAbsorbed []string
+
 func c17AbsorbedShape(oldJ, newJ string) bool {
+	c17LastAbsorbed = nil
 	var a, b interface{}
 	if json.Unmarshal([]byte(oldJ), &a) != nil || json.Unmarshal([]byte(newJ), &b) != nil {
 		return false
@@ -793,6 +797,7 @@ func c17AbsorbedShape(oldJ, newJ string) bool {
 				if !c17IsCommentLike(l) {
 					return false
 				}
+				c17LastAbsorbed = append(c17LastAbsorbed, l)
 			}
 			grew = true
 			return true
@@ -828,6 +833,45 @@ func c17AbsorbedShape(oldJ, newJ string) bool {
 
 // set configmap|secret rebuild the literal list by ranging over a Go map: the order of the list is not
 // determined, so "the same command again gives the same list" is not a law for them
+// c17AbsorbClass names the two mechanisms behind "a string value grew by comment-looking lines":
+//   comment-line-absorbed-into-block-scalar: every appended line already was a (comment-looking) line
+//     INSIDE some string value of the file — the scanner took scalar content for a comment and wrote it
+//     back once more (repaired by /tmp/fixes/U-kustfile-block-scalar-comments.patch);
+//   indented-comment-relocated-behind-block-scalar: a genuine, indented comment of the file was written
+//     back directly behind a field whose text ends in a block scalar.
+func c17AbsorbClass(before *types.Kustomization) string {
+	inside := map[string]bool{}
+	var walk func(x interface{})
+	walk = func(x interface{}) {
+		switch v := x.(type) {
+		case string:
+			for _, l := range strings.Split(v, "\n") {
+				if c17IsCommentLike(l) {
+					inside[strings.TrimLeft(l, " ")] = true
+				}
+			}
+		case map[string]interface{}:
+			for _, y := range v {
+				walk(y)
+			}
+		case []interface{}:
+			for _, y := range v {
+				walk(y)
+			}
+		}
+	}
+	var j interface{}
+	if json.Unmarshal([]byte(c17WholeJSON(before)), &j) == nil {
+		walk(j)
+	}
+	for _, l := range c17LastAbsorbed {
+		if !inside[strings.TrimLeft(l, " ")] {
+			return "indented-comment-relocated-behind-block-scalar"
+		}
+	}
+	return "comment-line-absorbed-into-block-scalar"
+}
+
 func c17IsSetKind(k string) bool {
 	return strings.HasPrefix(k, "set ") && k != "set configmap" && k != "set secret"
 }
@@ -985,7 +1029,7 @@ func c17Laws(r *Run, c *c17Case, obs []c17StepObs) {
 			if jo != jn {
 				cls := "frame:" + o.Kind + ":" + f.goName
 				if c17AbsorbedShape(jo, jn) {
-					cls = "comment-line-absorbed-into-block-scalar"
+					cls = c17AbsorbClass(kPrev)
 				}
 				viol("frame", cls, fmt.Sprintf("step %d %v changed field %s: %s -> %s", i, o.cli(), f.goName, jo, jn))
 			}
@@ -1034,7 +1078,7 @@ func c17Laws(r *Run, c *c17Case, obs []c17StepObs) {
 			} else if c17WholeJSON(k2) != c17WholeJSON(kNew) {
 				cls := "set-not-idempotent:" + o.Kind
 				if c17AbsorbedShape(c17WholeJSON(kNew), c17WholeJSON(k2)) {
-					cls = "comment-line-absorbed-into-block-scalar"
+					cls = c17AbsorbClass(kNew)
 				}
 				viol("set_idempotent", cls, fmt.Sprintf("step %d %v: %s then %s", i, o.cli(), c17WholeJSON(kNew), c17WholeJSON(k2)))
 			}
@@ -1052,14 +1096,14 @@ func c17Laws(r *Run, c *c17Case, obs []c17StepObs) {
 				} else if c17WholeJSON(k2) != c17WholeJSON(kPrev) {
 					cls := "add-remove-not-inverse:" + o.Kind
 					if c17AbsorbedShape(c17WholeJSON(kPrev), c17WholeJSON(k2)) {
-						cls = "comment-line-absorbed-into-block-scalar"
+						cls = c17AbsorbClass(kPrev)
 					}
 					// the patch text just added has itself grown by re-emitted comment lines, so the
 					// matching `remove patch` no longer finds it
 					if o.Kind == "add patch" && len(kNew.Patches) > 0 {
 						last := kNew.Patches[len(kNew.Patches)-1].Patch
 						if last != o.Patch && c17AbsorbedShape(c17JsonTok(o.Patch), c17JsonTok(last)) {
-							cls = "comment-line-absorbed-into-block-scalar"
+							cls = c17AbsorbClass(kPrev)
 						}
 					}
 					viol("add_remove_inverse", cls, fmt.Sprintf("step %d %v then %v: before %s after %s", i, o.cli(), inv.cli(), c17WholeJSON(kPrev), c17WholeJSON(k2)))
